@@ -135,7 +135,7 @@ def check_fit(case, ctx):
         return
     if cons is not None:
         cv = constraint_values(cons, ph)
-        if np.any(cv < -1e-8):
+        if np.any(cv < -1e-6):  # SLSQP accepts a point whose summed constraint violation is below its accuracy 1e-6
             ctx.violation(f"constraint_violated:{cons['kind']}", f"{tag}: constraint values {cv.tolist()} (must be >= 0)")
             return
     # objective(s)
@@ -154,6 +154,12 @@ def check_fit(case, ctx):
             return False, "J(fitted) not finite"
         sc = scale if w is None else float(np.sum((w**k) * y * y)) + 1e-300
         tau = 1e-4 * Jh + 1e-8 * sc
+        # a parameter sitting (almost) on a finite bound: scipy's bounded curve_fit (TRF) keeps its iterates strictly
+        # inside the box, approaches an active bound only linearly and stops by ftol a relative 1e-4..1e-3 short of it
+        pscale = np.maximum(np.maximum(np.abs(p0), np.abs(ph)), float(np.max(np.abs(ph))))
+        near = (np.isfinite(lo) & (np.abs(ph - lo) <= 1e-3 * pscale)) | (np.isfinite(hi) & (np.abs(hi - ph) <= 1e-3 * pscale))
+        if cons is None and bool(np.any(near)):
+            tau = 1e-2 * Jh + 1e-7 * sc
         if cons is not None:
             # SLSQP stops as soon as one iteration improves the objective by less than 1e-6 (default ftol,
             # absolute), which leaves it percent-level short on shallow valleys
@@ -168,7 +174,11 @@ def check_fit(case, ctx):
             return True, ""
         rng = np.random.default_rng(case["seed"] + 99)
         for i in range(64):
-            rel = 10.0 ** rng.uniform(-4, -1)
+            # "nearby": up to 10 % for shapes linear in their parameters (convex objective: any better admissible
+            # point disproves optimality), up to 1 % otherwise (a steep logistic / exponential objective is
+            # piecewise flat in its location parameter: a 10 % move jumps over a support point into another basin,
+            # which a local optimiser is not claimed to find)
+            rel = 10.0 ** rng.uniform(-4, -1 if shape in depshapes.LINEAR_IN_PARAMS else -2)
             delta = rel * rng.standard_normal(n_par) * np.maximum(np.abs(ph), 1e-3)
             if i % 4 == 0:  # single-coordinate moves
                 m = np.zeros(n_par)
